@@ -138,6 +138,11 @@ class Table:
 
     def attach(self, t, rep, tag, accept=True):
         nm = as_repr(t, rep)
+        if isinstance(nm, str):
+            # the application has converted this very URI before and went on to build a longer name from the result
+            earlier = enc.Name.normalize(nm)
+            earlier.append(bytearray(b'\x08\x03seg'))
+            del earlier
         if self.api == 'v2':
             self.app.attach_handler(nm, self._handler(tag), self._validator(tag, accept))
         elif self.api == 'legacy':
@@ -364,6 +369,35 @@ def run_two_apps(api, rot):
     return viol
 
 
+def run_route_alias(api):
+    """routes declared before connecting with one list object that the application goes on changing: each route is the name
+    the list held when the route was declared"""
+    viol = []
+    acc = Acc()
+    tb = Table(api)
+    try:
+        tb.app.shutdown()
+        tb.loop.settle()
+        log = tb.log
+        nm = [bytearray(b'\x08\x01a')]
+        declared = {}
+        for extra, tag in ((None, 'ra'), (bytearray(b'\x08\x01b'), 'rab'), (bytearray(b'\x08\x01c'), 'rabc')):
+            if extra is not None:
+                nm.append(extra)
+            tb.app.route(nm)(tb._handler(tag))
+            declared[tuple(bytes(c[2:]).decode() for c in nm)] = tag
+        nm.clear()
+        nm.append(bytearray(b'\x08\x01z'))
+        tb.main = tb.loop.create_task(tb.app.main_loop())
+        tb.loop.settle()
+        check_table(tb, declared, PROBES4, 'route-alias', viol, acc)
+    except Exception as e:  # noqa
+        viol.append((f'C04|{api}|route-alias|raises:{type(e).__name__}', repr(e)))
+    finally:
+        tb.close()
+    return viol
+
+
 def run_reconnect(rot):
     """appv2: handlers stay attached over the end of one connection and the start of the next one (same application object)"""
     viol = []
@@ -574,6 +608,16 @@ def unit(arg):
                 acc.observe(['two-apps', api, rot, [x[0] for x in v]])
                 for sig, what in v:
                     acc.violation(sig, what, {'kind': 'two-apps', 'api': api, 'rot': rot})
+        for api in ('v2', 'legacy'):
+            v = run_route_alias(api)
+            acc.evaluations += 1
+            acc.state_count += 1
+            acc.nontrivial += 1
+            acc.transitions += len(PROBES4)
+            acc.outcome(f"route-alias|{api}|{'ok' if not v else 'viol'}")
+            acc.observe(['route-alias', api, [x[0] for x in v]])
+            for sig, what in v:
+                acc.violation(sig, what, {'kind': 'route-alias', 'api': api})
         for rot in range(5):
             v = run_reconnect(rot)
             acc.evaluations += 1
@@ -606,6 +650,8 @@ def replay(case):
         v = run_history(case['api'], case['seq'], acc)
     elif case['kind'] == 'reconnect':
         v = run_reconnect(case['rot'])
+    elif case['kind'] == 'route-alias':
+        v = run_route_alias(case['api'])
     elif case['kind'] == 'two-apps':
         v = run_two_apps(case['api'], case['rot'])
     else:
